@@ -150,7 +150,7 @@ func init() {
 
 	register("C09",
 		"The composition clauses of 'point-in-ring/polygon matches even-odd geometry', decided with the callees uninterpreted: RingContains consults every edge of the implicitly closed ring exactly once (consecutive pairs and the closing pair), a boundary hit on any edge wins, otherwise the answer is the parity of the crossings; a polygon contains a point iff its outer ring does and no hole does; a multi-polygon iff any member does. What rayIntersect answers for one segment (the degenerate alignments, the one-ulp nudge, the slope comparison) is NOT decided.",
-		ruleCompose(concatSpecs(planarContainsSpecs, rayIntersectSpecs), 150),
+		ruleCompose(concatSpecs(planarContainsSpecs, rayIntersectSpecs, boundSpecsOf("Ring")), 150),
 	)
 
 	register("C10",
@@ -176,6 +176,7 @@ func init() {
 		ruleLoopShapes(inPkgs("maptile/tilecover."), 1, 3),
 		ruleDispatchDelegation([]string{"maptile/tilecover"}, 6),
 		ruleCompose(coverMemberSpecs, 10),
+		ruleCompose(coverLineSpecs, 10),
 	)
 
 	register("C18",
@@ -205,6 +206,7 @@ func init() {
 		ruleAreaFlag,
 		ruleVertexProvenance,
 		ruleCompactionIndex(inPkgs("simplify."), 4),
+		ruleDiscardedShortened(inPkgs("simplify."), inPkgs("simplify."), 20),
 		ruleCompose(concatSpecs(simplifySpecs, triangleAreaSpecs), 63),
 	)
 
@@ -220,6 +222,7 @@ func init() {
 			return inPkgs("project.")(k) || (inPkgs("encoding/mvt.")(k) && strings.Contains(k, "Project"))
 		}, 8, 0),
 		ruleShapeFaults(shapeConfig{label: "project", keep: inPkgs("project."), floor: 8}),
+		ruleLoopShapes(inPkgs("project."), 0, 5),
 	)
 
 	register("C16",
